@@ -303,6 +303,43 @@ type orderedDirected struct {
 func (o orderedDirected) HasEdgeFromTo(u, v int64) bool { return o.d.HasEdgeFromTo(u, v) }
 func (o orderedDirected) To(id int64) graph.Nodes       { return o.sorted(o.d.To(id)) }
 
+// budgetGraph counts From queries and panics with runawayMsg when a budget far
+// above any legitimate use is exhausted. It is put between Yen's algorithm
+// and the graph so that a non-terminating variant (k<0 with corrupted
+// candidate paths) is reported as a violation with its witness instead of
+// hanging the whole monitor.
+type budgetGraph struct {
+	graph.Graph
+	weight func(x, y int64) (float64, bool)
+	left   *int
+}
+
+func (b budgetGraph) From(id int64) graph.Nodes {
+	if *b.left--; *b.left < 0 {
+		panic(runawayMsg)
+	}
+	return b.Graph.From(id)
+}
+func (b budgetGraph) Weight(x, y int64) (float64, bool) { return b.weight(x, y) }
+
+type budgetDirected struct {
+	budgetGraph
+	d graph.Directed
+}
+
+func (b budgetDirected) HasEdgeFromTo(u, v int64) bool { return b.d.HasEdgeFromTo(u, v) }
+func (b budgetDirected) To(id int64) graph.Nodes       { return b.d.To(id) }
+
+// withBudget wraps g (which must have a Weight function) for a Yen call.
+func withBudget(g graph.Graph, weight func(x, y int64) (float64, bool), budget int) graph.Graph {
+	left := budget
+	bg := budgetGraph{Graph: g, weight: weight, left: &left}
+	if d, ok := g.(graph.Directed); ok {
+		return budgetDirected{budgetGraph: bg, d: d}
+	}
+	return bg
+}
+
 // weightedGraph is graph.Weighted: DijkstraAllPaths and NewDStarLite ask for
 // the full graph.Weighted (with WeightedEdge) and silently fall back to
 // UniformCost otherwise, so the wrappers must keep satisfying it.
